@@ -112,6 +112,12 @@ pub fn check_engine(c: &HistCase, obs: &mut Obs) -> Result<(), String> {
                 let mut fresh = build_engine(&rules, c.base.debug, c.base.optimize, &res);
                 fresh.use_tags(&tags.iter().map(|s| s.as_str()).collect::<Vec<_>>());
                 let got = engine_answers(&e, &c.base, only);
+                // the very same query twice in a row must give the same answer
+                let again = engine_answers(&e, &c.base, only);
+                if got != again {
+                    let d: Vec<_> = got.iter().zip(again.iter()).filter(|(a, b)| a != b).take(2).collect();
+                    return Err(format!("after op #{} repeating the same queries gives different answers: {:?}", k, d));
+                }
                 let want = engine_answers(&fresh, &c.base, only);
                 obs.inner_evals += got.len() as u64;
                 if mutated {
